@@ -715,3 +715,20 @@ Proof.
   split; [|vm_compute; split; reflexivity].
   cbn. split; [|auto]. constructor; [reflexivity|]. constructor; [reflexivity|constructor].
 Qed.
+
+(* ---- a line_format template as a request string (builder b4-lf): a template in which no action opens ("{{" does not occur -
+   the case of a hostile value put where a template is expected) parses to its own text, LineFormatPlanner prints it as ONE string
+   literal, and any two such templates are variants of each other (LogqlVariant.tpl_variant): by
+   logql_requests_differing_only_in_values_have_the_same_structure the statements have the same structure *)
+From Qryn Require model.LogqlTemplate proofs.LogqlTemplateTextProofs.
+Theorem line_format_text_is_one_literal : forall t, LogqlTemplateTextProofs.no_open t = true ->
+  exists ns, LogqlTemplate.tpl_parse t = LogqlTemplate.TOk ns /\ LogqlTemplate.tpl_sql ns = StrV t.
+Proof. exact LogqlTemplateTextProofs.text_template_is_one_literal. Qed.
+Print Assumptions line_format_text_is_one_literal.
+Theorem line_format_texts_are_variants : forall t t',
+  LogqlTemplateTextProofs.no_open t = true -> LogqlTemplateTextProofs.no_open t' = true -> LogqlVariant.tpl_variant t t'.
+Proof. exact LogqlTemplateTextProofs.text_templates_are_variants. Qed.
+Print Assumptions line_format_texts_are_variants.
+Example line_format_text_hyp :
+  LogqlTemplateTextProofs.no_open "it's }} { 100% \" = true /\ LogqlTemplateTextProofs.no_open "" = true /\ LogqlTemplateTextProofs.no_open "a{{.b}}" = false.
+Proof. exact LogqlTemplateTextProofs.text_templates_hyp. Qed.
